@@ -171,6 +171,48 @@ def type_rejections(report):
             pass
         except Exception as e:
             bad.append(f"{what}: {type(e).__name__}")
+    # the selector sent must be one an ARC-4 callee of the stated method answers to: other spellings of a signature are refused, or
+    # at least give the selector of the canonical spelling
+    import hashlib
+    import re
+    spell_bad = []
+    canon = "add(uint64,(byte[],bool)[2],string)uint64"
+    want_sel = hashlib.new("sha512_256", canon.encode()).digest()[:4]
+
+    def mkargs():
+        a, c = abi.Uint64(), abi.String()
+        b = abi.make(abi.StaticArray[abi.Tuple2[abi.DynamicBytes, abi.Bool], abi.Literal[2]]) if hasattr(abi, "Literal") else None
+        return [a, b, c]
+    import typing
+    spellings = [canon, "add(uint64, (byte[],bool)[2], string)uint64", "add(uint64,(byte[], bool)[2],string) uint64",
+                 "add(uint64,(byte[],bool)[2],string)uint64 ", "add(uint64,(byte[],bool)[2],string)\tuint64", "add(uint64,\n(byte[],bool)[2],string)uint64"]
+    # (whitespace before the parenthesis belongs to the method NAME - " add" is another method with its own selector - and is not probed)
+    for sp in spellings:
+        try:
+            x, z = abi.Uint64(), abi.String()
+            y = abi.StaticArrayTypeSpec(abi.TupleTypeSpec(abi.DynamicBytesTypeSpec(), abi.BoolTypeSpec()), 2).new_instance()
+            e = pt.InnerTxnBuilder.MethodCall(app_id=pt.Int(1), method_signature=sp, args=[x, y, z])
+        except Exception as ex:
+            if sp == canon:
+                spell_bad.append(f"canonical signature rejected: {type(ex).__name__}: {str(ex)[:80]}")
+            continue
+        sent = None
+        try:
+            el = abi.make(abi.Tuple2[abi.DynamicBytes, abi.Bool])
+            db, bo = abi.DynamicBytes(), abi.Bool()
+            tl = pt.compileTeal(pt.Seq(x.set(1), z.set("s"), db.set(b"ab"), bo.set(True), el.set(db, bo), y.set([el, el]),
+                                       pt.InnerTxnBuilder.Begin(), e, pt.InnerTxnBuilder.Submit(), pt.Approve()), pt.Mode.Application, version=8)
+            mm = re.search(r'^method "(.*)"$', tl, flags=re.M)
+            sent = hashlib.new("sha512_256", mm.group(1).encode()).digest()[:4] if mm else None
+            if mm is None:
+                spell_bad.append(f"no method selector found in the program compiled for spelling {sp!r}")
+        except Exception as ex:
+            spell_bad.append(f"probe for spelling {sp!r} does not compile: {type(ex).__name__}: {str(ex)[:100]}")
+        if sent is not None and sent != want_sel:
+            spell_bad.append(f"signature spelled {sp!r} is accepted and sends selector {sent.hex()}, but the method {canon} answers to {want_sel.hex()}")
+    report.ob(Ob(id="O14.1/selector-is-one-the-callee-answers-to", function="pyteal.ast.itxn.InnerTxnBuilder.MethodCall", kind="E",
+                 status="refuted" if spell_bad else "discharged", backend=f"enumeration({len(spellings)} spellings of one signature)",
+                 detail="a signature spelled with extra whitespace is refused, or the selector sent is the one of the canonical ARC-4 spelling", model=spell_bad or None))
     report.ob(Ob(id="O14.1/ill-typed-arguments-rejected", function="pyteal.ast.itxn.InnerTxnBuilder.MethodCall", kind="E",
                  status="refuted" if bad else "discharged", backend=f"enumeration({len(probes)} probes)",
                  detail="arguments that do not fit the signature raise TealInputError / TealTypeError when the expression is built", model=bad or None))
